@@ -901,6 +901,12 @@ func (f *fnState) loopHead(l *loopInfo) {
 		// ... and everything allocated before the loop stays allocated
 		f.assume(fmt.Sprintf("(>= %s %s)", f.get(f.cur, "G$nextref", sInt).T, preNextref))
 	}
+	// the heap stays closed under allocation across iterations
+	for _, k := range sortedKeys(hav) {
+		if v, ok := f.cur.cells[k]; ok && (strings.HasPrefix(k, "E$") || strings.HasPrefix(k, "H$")) {
+			f.closure(v.T, f.cellSort[k], f.get(f.cur, "G$nextref", sInt).T)
+		}
+	}
 	l.headEnv = f.cur.clone()
 	if f.fc != nil {
 		if d, ok := f.fc.Decreases[l.ordinal]; ok {
